@@ -47,6 +47,7 @@ class Ctx:
         self.names = {}
         self.ghost = {}
         self.log = []
+        self._dm = {}
 
     # -- fresh symbols (names are stable across re-executions) -------------
     def _name(self, base):
@@ -113,6 +114,27 @@ class Ctx:
         self.pc.append(lit)
         self.solver.add(lit)
         return v
+
+    def divmod_const(self, t, m):
+        """Definitional extension: fresh q, r with t == m*q + r, 0 <= r < m
+        (Python floor semantics for a positive constant m).  Keeps VCs in linear
+        integer arithmetic; sound because q, r are uniquely determined by t."""
+        assert isinstance(m, int) and m > 0
+        t = z3.simplify(t)
+        if z3.is_int_value(t):
+            v = t.as_long()
+            return z3.IntVal(v // m), z3.IntVal(v % m)
+        key = (t.get_id(), m)
+        hit = self._dm.get(key)
+        if hit is not None:
+            return hit[1], hit[2]
+        n = len(self._dm)
+        q, r = z3.Int(f"q!{n}"), z3.Int(f"r!{n}")
+        d = z3.And(t == m * q + r, r >= 0, r < m)
+        self._dm[key] = (t, q, r)
+        self.pc.append(d)
+        self.solver.add(d)
+        return q, r
 
     def concretize(self, term, limit=64):
         """Value-fork: return a concrete int for an Int term, enumerating all
@@ -274,11 +296,22 @@ def _okother(o):
 
 
 def floordiv_int(a, b):
-    """Python floor division on Int terms (z3's div is Euclidean)."""
+    """Python floor division on Int terms (z3's div is Euclidean: floor for a
+    positive divisor)."""
+    bs = z3.simplify(b) if z3.is_expr(b) else z3.IntVal(b)
+    if z3.is_int_value(bs):
+        bv = bs.as_long()
+        if bv > 0:
+            return a / bs
+        if bv < 0:
+            return (-a) / z3.IntVal(-bv)
     return z3.If(b > 0, a / b, (-a) / (-b))
 
 
 def mod_int(a, b):
+    bs = z3.simplify(b) if z3.is_expr(b) else z3.IntVal(b)
+    if z3.is_int_value(bs) and bs.as_long() > 0:
+        return a % bs
     return a - b * floordiv_int(a, b)
 
 
@@ -437,11 +470,16 @@ class SymInt(_Num):
         return self
 
     def bit_length(self):
-        a = z3.If(self.t >= 0, self.t, -self.t)
-        r = z3.IntVal(0)
-        for k in range(1, 66):
-            r = z3.If(a >= 2 ** (k - 1), z3.IntVal(k), r)
-        return SymInt(z3.simplify(r))
+        """Case split on the bit length (complete: the path oracle proves that
+        no further length is feasible).  Returns a concrete int per path."""
+        c = cur()
+        a = self.t if c.decide(self.t >= 0) else -self.t    # case split on the sign
+        if c.decide(a == 0):
+            return 0
+        for k in range(1, 65):
+            if c.decide(a < 2 ** k):
+                return k
+        raise Unsupported("bit_length of a value not bounded by 2^64")
 
     # bit operations, through div/mod by powers of two (Python floor semantics)
     @staticmethod
@@ -454,11 +492,12 @@ class SymInt(_Num):
             if z3.is_int_value(o2):
                 o = o2.as_long()
         if self._pow2mask(o):
-            return SymInt(z3.simplify(mod_int(self.t, z3.IntVal(o + 1))))
+            return SymInt(cur().divmod_const(self.t, o + 1)[1])
         if isinstance(o, int) and o >= 0 and bin(o).count("1") == 1:
             # single bit 2^k:  ((v >> k) mod 2) * 2^k
             k = o.bit_length() - 1
-            return SymInt(z3.simplify(mod_int(floordiv_int(self.t, z3.IntVal(2 ** k)), z3.IntVal(2)) * o))
+            q = cur().divmod_const(self.t, 2 ** k)[0]
+            return SymInt(z3.simplify(cur().divmod_const(q, 2)[1] * o))
         raise Unsupported(f"& with non-mask operand {o!r}")
 
     __rand__ = __and__
@@ -470,7 +509,8 @@ class SymInt(_Num):
                 o = o2.as_long()
         if isinstance(o, int) and o >= 0 and bin(o).count("1") == 1:
             k = o.bit_length() - 1
-            bit = mod_int(floordiv_int(self.t, z3.IntVal(2 ** k)), z3.IntVal(2))
+            q = cur().divmod_const(self.t, 2 ** k)[0]
+            bit = cur().divmod_const(q, 2)[1]
             return SymInt(z3.simplify(self.t + z3.If(bit == 0, o, 0)))
         if o == 0:
             return self
@@ -480,7 +520,7 @@ class SymInt(_Num):
 
     def __rshift__(self, o):
         if isinstance(o, int) and o >= 0:
-            return SymInt(z3.simplify(floordiv_int(self.t, z3.IntVal(2 ** o))))
+            return SymInt(cur().divmod_const(self.t, 2 ** o)[0])
         raise Unsupported(">> with symbolic shift")
 
     def __lshift__(self, o):
